@@ -531,6 +531,18 @@ fn layout_attrs(items: Vec<String>, layout: Layout, indent: &str, syntax: &[Stri
 
 /// Render the enum definition. `derives` are full paths (`strum::EnumString`, `Debug`, ..).
 pub fn render_enum(spec: &EnumSpec, derives: &[&str]) -> String {
+    if spec.syntax.iter().any(|x| x == "result-alias") {
+        // declaration context: the enum lives in a module that has the customary `type Result<T> = ..` alias in scope
+        // (generated code that says `Result<A, B>` instead of `::core::result::Result<A, B>` stops compiling there)
+        let mut inner = spec.clone();
+        inner.syntax.retain(|x| x != "result-alias");
+        let body = render_enum(&inner, derives);
+        return format!(
+            "pub mod scoped_{n} {{\n    #![allow(unused_imports, dead_code)]\n    use super::*;\n    struct AliasErr;\n    type Result<T> = ::core::result::Result<T, AliasErr>;\n{body}}}\npub use scoped_{n}::*;\n",
+            n = spec.name.to_lowercase(),
+            body = body
+        );
+    }
     let mut o = String::new();
     o.push_str(&format!("#[derive({})]\n", derives.join(", ")));
     if let Some(r) = &spec.repr {
